@@ -215,6 +215,7 @@ pub fn run(cfg: &Cfg) -> (&'static str, Report, String, String) {
     // every lead-byte class under the empty delimiter / as a char delimiter / next to an ASCII delimiter
     let mut la: Vec<&str> = LEADS.to_vec();
     la.extend(LEADS_HI3);
+    la.extend(ASCII_EDGES);
     la.push(",");
     let ls = strings_upto(&la, cfg.by(1, 3, 3));
     let ld: Vec<&str> = if cfg.miri() { vec!["", ","] } else { vec!["", ",", "\u{ffff}", "\u{8000}", "\u{800}", "\u{10ffff}", "a\u{fffd}"] };
@@ -222,6 +223,39 @@ pub fn run(cfg: &Cfg) -> (&'static str, Report, String, String) {
         for d in &ld {
             pair(r, &ls[i], d);
         }
+    }));
+    // planted: a one-byte delimiter d directly next to its bit-neighbours (d^1, d+1, d-1: the bytes a
+    // word-at-a-time "has this byte" test confuses with d), at every offset of filler strings of 8..=L bytes,
+    // with one or two occurrences of d
+    let maxl = cfg.by(9, 26, 40);
+    rep.merge(par_for(cfg, maxl + 1, |l, r| {
+        if l < 2 {
+            return;
+        }
+        for d in [b',', b'/', b' ', b'a'] {
+            for nb in [d ^ 1, d + 1, d - 1] {
+                for p in 0..l - 1 {
+                    if cfg.miri() && p % 7 != 0 {
+                        continue;
+                    }
+                    for order in 0..2 {
+                        let mut h = vec![b'x'; l];
+                        let (a, b) = if order == 0 { (d, nb) } else { (nb, d) };
+                        h[p] = a;
+                        h[p + 1] = b;
+                        let s = String::from_utf8(h.clone()).unwrap();
+                        let ds = (d as char).to_string();
+                        pair(r, &s, &ds);
+                        // a second, clean occurrence further left / right
+                        if p >= 3 {
+                            h[p - 3] = d;
+                            pair(r, core::str::from_utf8(&h).unwrap(), &ds);
+                        }
+                    }
+                }
+            }
+        }
+        r.ev("planted-byte-neighbours");
     }));
     let nrand = cfg.by(3, 1500, 10000);
     rep.merge(par_for(cfg, nrand, |i, r| {
@@ -239,7 +273,7 @@ pub fn run(cfg: &Cfg) -> (&'static str, Report, String, String) {
     (
         "C06",
         rep,
-        format!("all {} strings (<= {} chars) x {} delimiters (<= {} chars, incl. empty) over {{a,b,ñ}}, &str and char delimiter kinds; all {} strings over {{a,ñ,個,🙂}} x 7 delimiters; {} seeded random (<= 40 chars)", ss.len(), sl, ds.len(), dl, s4.len(), nrand),
+        format!("all {} strings (<= {} chars) x {} delimiters (<= {} chars, incl. empty) over {{a,b,ñ}}, &str and char delimiter kinds; all {} strings over {{a,ñ,個,🙂}} x 7 delimiters; {} seeded random (<= 40 chars, one in eight <= 300); planted: one-byte delimiters {{',','/',' ','a'}} next to their bit-neighbours (d^1, d+1, d-1) at every offset of filler strings of 2..={} bytes", ss.len(), sl, ds.len(), dl, s4.len(), nrand, maxl),
         "one evaluation = one iterator step (piece + remainder after the step) of split / rsplit / split().rev() / rsplit().rev() / next_back of both / split_terminator / rsplit_terminator, each iteration compared piece-by-piece (value and position) with str::split / rsplit / split_terminator (rsplit_terminator: rsplit minus a final \"\"), remainder = not-yet-split part at the position computed from the pieces yielded so far; exhausted iterators must stay exhausted; non-trivial = distinct (kind,input,delimiter) with >= 3 pieces or an empty piece among >= 2".into(),
     )
 }
